@@ -90,6 +90,9 @@ func (h *Host) registerForeign() {
 	must(k.RegisterStateCallback(foreignModule, func(ctx sdk.Context, id tmbytes.HexBytes, cause string) {
 		h.callbacks = append(h.callbacks, CallbackRec{Kind: "state", Ctx: strings.ToLower(id.String()), Cause: cause})
 	}))
+	// two sloppy modules that registered only one of the two callbacks: the keeper must refuse contexts for them
+	must(k.RegisterResponseCallback("halfresp", func(ctx sdk.Context, id tmbytes.HexBytes, outputs []string, err error) {}))
+	must(k.RegisterStateCallback("halfstate", func(ctx sdk.Context, id tmbytes.HexBytes, cause string) {}))
 	if h.cfg.ModuleService {
 		must(k.RegisterModuleService(types.RegisterModuleName, &types.ModuleService{
 			ServiceName: types.OraclePriceServiceName,
@@ -378,7 +381,11 @@ func (h *Host) SetParams(p *ParamsOp) {
 		ss.Set(ctx, types.KeyComplaintRetrospect, cur.ComplaintRetrospect)
 	}
 	if p.MinDeposit > 0 {
-		cur.MinDeposit = sdk.NewCoins(sdk.NewCoin("stake", sdk.NewInt(p.MinDeposit)))
+		denom := "stake"
+		if p.MinDepositDenom != "" {
+			denom = p.MinDepositDenom
+		}
+		cur.MinDeposit = sdk.NewCoins(sdk.NewCoin(denom, sdk.NewInt(p.MinDeposit)))
 		ss.Set(ctx, types.KeyMinDeposit, cur.MinDeposit)
 	}
 	if p.MinDepositMultiple > 0 {
